@@ -27,7 +27,7 @@ OPS = {
     "mov": ("Memory::mov", "view'(i) == view(i+d) for every d in +-2^62; never allocates", ["C09", "C06", "C04"], False),
     "write": ("Memory::{write, write_out_of_bounds, make_accessible}", "view' == view[o := x] at a fresh symbolic index; wf'; target in buffer afterwards; all three growth placements covered", ["C09", "C06", "C04"], True),
     "write_oob": ("Memory::write_out_of_bounds", "view' == view[o := x]; wf'", ["C09", "C06"], True),
-    "make_accessible": ("Memory::make_accessible", "view' == view (contents and logical pointer preserved); wf'; every q in [s,e) accessible afterwards; no reallocation when already accessible; never shrinks; growth below / above / both covered", ["C09", "C06"], True),
+    "make_accessible": ("Memory::make_accessible", "view' == view (contents and logical pointer preserved); wf'; every q in [s,e) accessible afterwards; no reallocation when already accessible; never shrinks and every previously accessible cell stays accessible; growth below / above / both covered", ["C09", "C06"], True),
     "ptr_api": ("Memory::{current_ptr, check_ptr, set_current_ptr}", "check_ptr(current_ptr()+k) <=> check(k); set_current_ptr(current_ptr()+k) has the effect of mov(k) -- for pointers inside the block or one past its end (out-of-object pointers: not decided, Kani pointer-model artefact)", ["C09", "C06"], False),
     "drop": ("Memory::drop", "frees exactly the owned block with its allocation layout (Kani dealloc checks)", ["C09", "C06"], False),
 }
